@@ -289,3 +289,11 @@ pub mod machinery {
         crate::vm::eval(env, instructions, root, blocks, out, auto_escape)
     }
 }
+
+#[cfg(kani)]
+#[path = "/verif/kani/common.rs"]
+pub(crate) mod verif_common;
+
+#[cfg(kani)]
+#[path = "/verif/kani/root.rs"]
+mod verif_kani;
